@@ -167,6 +167,10 @@ def check(ctx, rep):
     prog = ctx.prog
     rep.rule("R09a", "a scripted gophermap gives exactly one entry per line, in file order, with the documented meaning of each line shape "
              "(evaluated in three directories, LF and CRLF line ends)", floor=3)
+    rep.rule("R09f", "= R06e: a link line that names a host or a port (or both) is rendered as a link to that server by every protocol; only a line "
+             "that names neither is a link to this server", floor=1)
+    from .c06 import link_target_obligations
+    link_target_obligations(ctx, rep, "R09f")
     rep.rule("R09e", "= R03m: the description of a gophermap line is an argument of the format operations that render it, never part of a format "
              "string (a `%` in a description must not end the menu)", floor=1)
     from .c03 import format_string_obligations
